@@ -32,7 +32,7 @@ func c07kind(err error) string {
 		return "syntax"
 	case strings.Contains(err.Error(), "EOF"):
 		return "incomplete"
-	case strings.Contains(err.Error(), "trailing"):
+	case strings.Contains(err.Error(), "after top-level value"), strings.Contains(err.Error(), "trailing"):
 		return "trailing"
 	case strings.Contains(err.Error(), "range"):
 		return "range"
